@@ -26,9 +26,9 @@ def root_list(tier, seed, kinds=("1a", "1n", "2n")):
                 out.append((sg, ((l, Z1),), False))
         if "2n" in kinds:
             if tier == "quick":
-                pairs = [(lets[i], lets[i + 1]) for i in range(len(lets) - 1)]
-                if len(lets) > 2:
-                    pairs.append((lets[0], lets[-1]))
+                # the first letter pinned by one species + every other letter (this is what makes the
+                # normalizer search choose non-identity elements), and every second consecutive pair
+                pairs = [(lets[0], x) for x in lets[1:]] + [(lets[i], lets[i + 1]) for i in range(1, len(lets) - 1, 2)]
                 pats = [(Z1, Z2)]
             else:
                 pairs = list(itertools.combinations_with_replacement(lets, 2))
@@ -38,8 +38,17 @@ def root_list(tier, seed, kinds=("1a", "1n", "2n")):
                     if a == b and za != zb and (za, zb) != pats[0]:
                         continue
                     out.append((sg, ((a, za), (b, zb)), False))
+        if "2s" in kinds:
+            # the same letter occupied twice by the same species with different free parameters
+            from matid.data.symmetry_data import WYCKOFF_SETS
+
+            for l in lets:
+                if WYCKOFF_SETS[sg][l]["variables"]:
+                    out.append((sg, ((l, Z1), (l, Z1)), False))
         if "2a" in kinds:
-            pairs = [(lets[i], lets[i + 1]) for i in range(len(lets) - 1)]
+            pairs = [(lets[0], x) for x in lets[1:]]
+            if tier != "quick":
+                pairs += [(lets[i], lets[i + 1]) for i in range(1, len(lets) - 1)]
             for a, b in pairs:
                 out.append((sg, ((a, Z1), (b, Z2)), True))
     return out
